@@ -18,6 +18,7 @@ Print Assumptions edge_iff_branch_row.
 
 Theorem row_in_meaning : forall a n t r,
   row_in a n t r = true <->
+  b_pi r = false /\
   (f_respect (flags_of (a_flags a) t) = false \/ b_act r = true) /\
   ~ (t = "pipe" /\ a_rs_valves a = true /\ In (b_label r) (closed_pi_pipes n)).
 Proof. exact row_in_spec. Qed.
@@ -43,30 +44,25 @@ Definition jn (l : Z) := mkJ l true.
 Definition wtables (valves : list brow) : list btable :=
   [ ("pipe", [mkB 3 0 1 true 32 false; mkB 7 1 2 true 16 false; mkB 4 3 4 true 32 false; mkB 5 4 5 true 32 false]);
     ("valve", valves); ("circ_pump_pressure", [mkB 0 5 3 true 0 false]) ].
-Definition witness : net := mkNet (map jn [0; 1; 2; 3; 4; 5]) (wtables [mkB 0 1 3 true 0 true]) [(0, true)] [0; 3].
-Definition witness_nv : net := mkNet (map jn [0; 1; 2; 3; 4; 5]) (wtables []) [(0, true)] [0; 3].
+Definition witness : net := mkNet (map jn [0; 1; 2; 3; 4; 5]) (wtables [mkB 0 1 3 true 0 true]) [(0, true, true)] [0; 3].
+Definition witness_nv : net := mkNet (map jn [0; 1; 2; 3; 4; 5]) (wtables []) [(0, true, true)] [0; 3].
 Definition dflt : args := mkArgs [] true true [] [] true.
 
-(* a pi valve adds no edge of its own - PARTIAL: holds for nets without pi valves (all ends are junctions) *)
-Theorem pipe_valve_adds_no_edge_partial : forall a n,
-  (forall tb r, In tb (n_tables n) -> In r (snd tb) ->
-     b_pi r = false /\ In (b_from r) (map j_label (n_junctions n)) /\ In (b_to r) (map j_label (n_junctions n))) ->
+(* FULL STRENGTH since 515c489: a valve attached to a pipe adds no edge of its own - every edge comes from a row that
+   is not a pipe-attached valve ... *)
+Theorem pipe_valve_adds_no_edge : forall a n u v t l w, In (mkE u v t l w) (edges a n) ->
+  exists rows r, In (t, rows) (n_tables n) /\ In r rows /\ b_label r = l /\ b_pi r = false /\ u = b_from r /\ v = b_to r.
+Proof. exact edge_row_not_pi. Qed.
+Print Assumptions pipe_valve_adds_no_edge.
+
+(* ... so with intact junction references of those rows every edge joins two junctions (pi valves may be present) *)
+Theorem edges_join_junctions : forall a n,
+  (forall tb r, In tb (n_tables n) -> In r (snd tb) -> b_pi r = false ->
+     In (b_from r) (map j_label (n_junctions n)) /\ In (b_to r) (map j_label (n_junctions n))) ->
   forall e, In e (edges a n) ->
     In (e_u e) (map j_label (n_junctions n)) /\ In (e_v e) (map j_label (n_junctions n)).
-Proof. exact edges_join_junctions. Qed.
-Print Assumptions pipe_valve_adds_no_edge_partial.
-
-(* REFUTED on the current tree: the valve on pipe 3 becomes the edge 1 - 3 ("3" read as a junction), which joins
-   the ext-grid part to the circulation-pump loop although no element connects them *)
-Theorem pipe_valve_adds_no_edge_refuted : exists n a r,
-  In r (rows_of n "valve") /\ b_pi r = true /\
-  In (mkE (b_from r) (b_to r) "valve" (b_label r) 0) (edges a n) /\
-  In 3 (reach a n [0]) /\ ~ In 3 (reach a witness_nv [0]).
-Proof.
-  exists witness, dflt, (mkB 0 1 3 true 0 true). vm_compute. repeat split; auto; try tauto.
-  intros H. repeat (destruct H as [H | H]; [discriminate H|]). exact H.
-Qed.
-Print Assumptions pipe_valve_adds_no_edge_refuted.
+Proof. exact Proofs.edges_join_junctions. Qed.
+Print Assumptions edges_join_junctions.
 
 (* components: a closure that is stable is exactly the set reachable over the edges *)
 Theorem graph_components_are_reachability_classes : forall es k S0 v,
@@ -82,17 +78,22 @@ Theorem unsupplied_is_unreachable_from_ext_grids : forall a n x,
 Proof. intros a n x. apply unsupplied_with_spec. Qed.
 Print Assumptions unsupplied_is_unreachable_from_ext_grids.
 
-(* PARTIAL: when the in-service ext grids are exactly the pressure-fixing elements, that is the supplied set *)
-Theorem unsupplied_eq_spec_partial : forall a n, slacks_code n = n_sources n -> unsupplied a n = unsupplied_spec a n.
-Proof. exact unsupplied_eq_spec. Qed.
-Print Assumptions unsupplied_eq_spec_partial.
+(* unsupplied = not connected to a pressure-fixing element, whenever the code's slack set (in-service p / pt ext
+   grids + flow junctions of in-service circulation pumps, since 515c489) is the set of pressure-fixing elements; the
+   correspondence checks that equality for every generated net inside Coq ([sources_ok]) *)
+Theorem unsupplied_eq_spec : forall a n, slacks_code n = n_sources n -> unsupplied a n = unsupplied_spec a n.
+Proof. exact Proofs.unsupplied_eq_spec. Qed.
+Print Assumptions unsupplied_eq_spec.
 
-(* REFUTED on the current tree: the loop 3-4-5 is supplied by its circulation pump, yet reported unsupplied *)
-Theorem unsupplied_eq_spec_refuted : exists a n,
-  unsupplied a n = [4; 5; 3] /\ unsupplied_spec a n = [] /\
-  stable (edges a n) (reach a n (slacks_code n)) = true.
-Proof. exists dflt, witness_nv. vm_compute. auto. Qed.
-Print Assumptions unsupplied_eq_spec_refuted.
+(* the witness with the pi valve and the circulation-pump loop: the valve adds no edge, the loop is supplied, the
+   ext-grid part and the loop are separate components *)
+Example witness_supplied :
+  slacks_code witness = n_sources witness /\ unsupplied dflt witness = [] /\
+  length (edges dflt witness) = 5%nat /\ ~ In 3 (reach dflt witness [0]) /\
+  stable (edges dflt witness) (reach dflt witness (slacks_code witness)) = true.
+Proof.
+  vm_compute. repeat split; auto. intros H. repeat (destruct H as [H | H]; [discriminate H|]). exact H.
+Qed.
 
 (* distances: every value of a stable relaxation is the length of a walk from a source, and no walk is shorter *)
 Theorem distance_is_shortest_path : forall a n srcs,
